@@ -90,6 +90,18 @@ def run(ctx, factor):
                 rep.case(case, b[0] == "ok" and bool(b[1]), tags=["sections=%d" % len(secs), "object-sections=%d" % len(names)])
             if rep.violations and factor > 1:
                 return
+        # the same PATH holding different objects one after the other: the disassembly must be of what is there now
+        for k in range(ctx.budget(3, 30) * factor):
+            secs = [(".text", objfuzz.random_bytes(g, g.int(8, 60)))]
+            path = objfuzz.assemble(ctx.scratch, secs, name="reused")
+            doc = {"pattern": ["nop"]}
+            b = impl.run_op(ctx.scratch, doc, None, ret="stream", binary_path=path)
+            rc, out, err = objfuzz.objdump(path)
+            t = impl.run_op(ctx.scratch, doc, out, ret="stream") if rc == 0 else None
+            case = {"object": "reused.o (rewritten before every operation)", "round": k}
+            if t is not None and b != t:
+                rep.violate("binary-route-differs-from-text-route", case, {"text_route_stream": t}, {"binary_route_stream": b})
+            rep.case(case, b[0] == "ok" and bool(b[1]), tags=["reused-path"])
     finally:
         os.environ["PATH"] = old_path
 
